@@ -1,6 +1,110 @@
-//! Kani harnesses for nomt/src/io/mod.rs (compiled into the real crate only under cfg(kani)).
+//! Shared constructors and ghost I/O log for the effect-order harnesses (K1).
 #![allow(unused_imports, dead_code)]
 use super::*;
+
+/// An `IoHandle` whose `send`/`recv` are always stubbed by the harnesses that use it.
+pub(crate) fn kani_io_handle() -> IoHandle {
+    let (completion_sender, completion_receiver) = crossbeam_channel::unbounded();
+    IoHandle {
+        sender: Weak::new(),
+        completion_sender,
+        completion_receiver,
+    }
+}
+
+// ---- ghost effect log -----------------------------------------------------------------------
+pub(crate) const OP_SET_LEN: u8 = 1;
+pub(crate) const OP_SEEK: u8 = 2;
+pub(crate) const OP_WRITE: u8 = 3;
+pub(crate) const OP_FSYNC: u8 = 4;
+pub(crate) const OP_SEND: u8 = 5;
+pub(crate) const OP_RECV: u8 = 6;
+pub(crate) const OP_WRITE_AT: u8 = 7;
+pub(crate) const OP_FDATASYNC: u8 = 8;
+
+pub(crate) const LOG_CAP: usize = 12;
+pub(crate) static mut LOG: [u8; LOG_CAP] = [0; LOG_CAP];
+pub(crate) static mut LOG_ARG: [u64; LOG_CAP] = [0; LOG_CAP];
+pub(crate) static mut LOG_N: usize = 0;
+/// index in LOG of the first operation that was made to fail (usize::MAX = none)
+pub(crate) static mut FAILED_AT: usize = usize::MAX;
+/// number of completions handed out with an error result
+pub(crate) static mut ERR_COMPLETIONS: usize = 0;
+
+pub(crate) fn log_op(op: u8, arg: u64) -> usize {
+    unsafe {
+        let i = LOG_N;
+        assert!(i < LOG_CAP, "ghost log overflow");
+        LOG[i] = op;
+        LOG_ARG[i] = arg;
+        LOG_N = i + 1;
+        i
+    }
+}
+
+/// Log `op`; nondeterministically make it fail with an OS error.
+pub(crate) fn fallible(op: u8, arg: u64) -> std::io::Result<()> {
+    let i = log_op(op, arg);
+    if kani::any() {
+        unsafe {
+            if FAILED_AT == usize::MAX {
+                FAILED_AT = i;
+            }
+        }
+        return Err(std::io::Error::from_raw_os_error(5));
+    }
+    Ok(())
+}
+
+pub(crate) fn log_len() -> usize {
+    unsafe { LOG_N }
+}
+pub(crate) fn log_at(i: usize) -> u8 {
+    unsafe { LOG[i] }
+}
+pub(crate) fn log_arg(i: usize) -> u64 {
+    unsafe { LOG_ARG[i] }
+}
+pub(crate) fn failed_at() -> usize {
+    unsafe { FAILED_AT }
+}
+
+// ---- std::fs::File stubs ---------------------------------------------------------------------
+pub(crate) fn stub_set_len(_f: &File, size: u64) -> std::io::Result<()> {
+    fallible(OP_SET_LEN, size)
+}
+pub(crate) fn stub_sync_all(_f: &File) -> std::io::Result<()> {
+    fallible(OP_FSYNC, 0)
+}
+pub(crate) fn stub_sync_data(_f: &File) -> std::io::Result<()> {
+    fallible(OP_FDATASYNC, 0)
+}
+pub(crate) fn stub_seek<'a>(_f: &mut &'a File, pos: std::io::SeekFrom) -> std::io::Result<u64>
+where
+    'a: 'a,
+{
+    let p = match pos {
+        std::io::SeekFrom::Start(p) => p,
+        _ => u64::MAX,
+    };
+    fallible(OP_SEEK, p).map(|_| p)
+}
+pub(crate) fn stub_write<'a>(_f: &mut &'a File, buf: &[u8]) -> std::io::Result<usize>
+where
+    'a: 'a,
+{
+    fallible(OP_WRITE, buf.len() as u64).map(|_| buf.len())
+}
+pub(crate) fn stub_write_all_at(_f: &File, buf: &[u8], offset: u64) -> std::io::Result<()> {
+    // arg packs offset and length
+    fallible(OP_WRITE_AT, (offset << 32) | buf.len() as u64)
+}
+
+/// A `File` value for harnesses: never used for real I/O (every method used is stubbed).
+pub(crate) fn kani_file(fd: i32) -> std::mem::ManuallyDrop<File> {
+    use std::os::fd::FromRawFd;
+    std::mem::ManuallyDrop::new(unsafe { File::from_raw_fd(fd) })
+}
 
 #[cfg(test)]
 include!("/verif/.build/playback/io_mod.inc");
